@@ -2948,7 +2948,15 @@ pub(crate) fn constrain_type(expr: &mut TypedExpr, expected: &Type) -> Result<()
                 return Ok(());
             }
         }
-        _ => {}
+        _ => {
+            // any other expression (an element of a tuple or an array, a field, the result of a
+            // call, ...) whose value still has unspecified number types is converted to the number
+            // types it is used at (re-typing alone would keep the 32 wires of an unspecified number)
+            let ty_before = expr.ty.clone();
+            overwrite_ty_if_necessary(&mut expr.ty, expected);
+            cast_if_unspecified_value(expr, ty_before);
+            return Ok(());
+        }
     }
     overwrite_ty_if_necessary(&mut expr.ty, expected);
     Ok(())
